@@ -103,6 +103,9 @@ def gen_c10(tier, rng):
         ths[0] += [rng.choice(["ws", "wf"])]
         base = 100
         ticks = [base] + [base + rng.choice([0, 1, 4, 5, 6, 9, 11, 3, -2]) for _ in range(nev)]
+        if i % 3 == 0:
+            # the first reporter still accumulates in the current bucket while the second one rolls it
+            ticks = [base, base + 1, base + 6] + [base + rng.choice([6, 7, 8, 12, 13]) for _ in range(nev - 2)]
         if rng.random() < 0.6:
             ticks.append(base + 200); expect = "all"
         else:
